@@ -26,6 +26,7 @@ Proof.
   - destruct (gate v c s && allowed); reflexivity.
   - destruct (if newest then rev (heldq s) else heldq s); reflexivity.
   - unfold upd_cur. destruct (cur s); reflexivity.
+  - reflexivity.
 Qed.
 
 Lemma mrun_ustep : forall outs m, mrun ustep m outs = Some tt \/ (outs = [] /\ mrun ustep m outs = Some m).
